@@ -23,7 +23,7 @@ impl<T: Parse> Parse for Option<T> {}
 
 impl ParseBuffer {
     #[verifier::external_body]
-    pub fn error(&self, msg: &str) -> (r: SynError) { unimplemented!() }
+    pub fn error<M>(&self, msg: M) -> (r: SynError) { unimplemented!() }
     #[verifier::external_body]
     pub fn is_empty(&self) -> (r: bool) { unimplemented!() }
     #[verifier::external_body]
@@ -33,5 +33,13 @@ impl ParseBuffer {
 #[verifier::external_body]
 pub struct GroupDeterminer { _p: () }
 
-pub trait ParseUnit<N> {}
+pub struct Empty { _p: () }
+impl Parse for Empty {}
+impl Parse for Expr {}
+impl Parse for Type {}
+
+pub trait ParseUnit<N> {
+    /// opaque (syn-driven): parses input until the next group
+    fn parse_unit<T: Parse>(&self, input: ParseStream<'_>, allow_empty_parsed: bool) -> (r: UnitResult<T, N>);
+}
 pub type UnitResult<T, N> = syn::Result<Unit<T, N>>;
